@@ -8,10 +8,10 @@ use nom::branch::alt;
 use nom::bytes::complete::{tag, take_while, take_while1};
 use nom::character::complete::digit1;
 use nom::character::{is_alphabetic, is_alphanumeric, is_hex_digit};
-use nom::combinator::{map, map_res, opt, recognize, verify};
+use nom::combinator::{map, map_res, opt, peek, recognize, verify};
 use nom::multi::{fold_many0, many0, many1};
 use nom::number::complete::be_u8;
-use nom::sequence::{delimited, preceded};
+use nom::sequence::{delimited, preceded, terminated};
 use nom::IResult;
 
 #[doc(hidden)]
@@ -317,7 +317,9 @@ fn extensible(i: &[u8]) -> IResult<&[u8], Tag> {
 
 fn attr_dn_mrule(i: &[u8]) -> IResult<&[u8], Tag> {
     let (i, attr) = attributedescription(i)?;
-    let (i, dn) = opt(tag(b":dn"))(i)?;
+    // ":dn" is the dnattrs flag only if a colon follows; otherwise it is the start
+    // of a matching rule name, such as ":dnQualifierMatch"
+    let (i, dn) = opt(terminated(tag(b":dn"), peek(tag(b":"))))(i)?;
     let (i, mrule) = opt(preceded(tag(b":"), attributetype))(i)?;
     let (i, _) = tag(b":=")(i)?;
     let (i, value) = unescaped(i)?;
@@ -325,7 +327,11 @@ fn attr_dn_mrule(i: &[u8]) -> IResult<&[u8], Tag> {
 }
 
 fn dn_mrule(i: &[u8]) -> IResult<&[u8], Tag> {
-    let (i, dn) = opt(tag(b":dn"))(i)?;
+    // the matching rule is mandatory here, so ":dn" is the flag only if a rule follows it
+    let (i, dn) = opt(terminated(
+        tag(b":dn"),
+        peek(preceded(tag(b":"), attributetype)),
+    ))(i)?;
     let (i, mrule) = preceded(tag(b":"), attributetype)(i)?;
     let (i, _) = tag(b":=")(i)?;
     let (i, value) = unescaped(i)?;
